@@ -470,18 +470,40 @@ Section RoundTrip.
     rewrite H3. fold notblank. rewrite (blocks_of_aux _ _ _ _ H4), H5. reflexivity.
   Qed.
 
+  Lemma mm_kid_block db k : core k <> [] ->
+    S (mm (core k)) <= mm (prefix_block sline sl_add SC CC
+                             (snd (kid_lines sline sl_lit sl_add (Cx false false) B db k))).
+  Proof.
+    intros Hne. rewrite prefix_block_pref. destruct k as [c|s]; simpl snd.
+    - simpl core in *. destruct (Cx false false c) as [|l0 r]; [congruence|]. rewrite mm_pref. lia.
+    - simpl core. destruct (nonempty (s_frames s)); simpl snd.
+      + change ((sl_lit (child_root_line (s_root s)) :: B s) ++ [sl_lit nl])
+          with (sl_lit (child_root_line (s_root s)) :: B s ++ [sl_lit nl]).
+        rewrite mm_pref, !mm_cons, mm_app. lia.
+      + rewrite mm_pref. lia.
+  Qed.
+
+  Lemma mm_kids ks : forall db k, In k ks -> core k <> [] -> S (mm (core k)) <= mm (KL db ks).
+  Proof.
+    induction ks as [|k0 ks IH]; simpl; [tauto|]. intros db k Hin Hne. rewrite !mm_app.
+    destruct Hin as [->|Hin].
+    - pose proof (mm_kid_block db k Hne). lia.
+    - specialize (IH (last_blank sline sl_is_blank (snd (kid_lines sline sl_lit sl_add (Cx false false) B db k0))) k Hin Hne). lia.
+  Qed.
+
   Lemma kid_items n ks :
-    Forall Pk ks -> Forall (fun k => ht_child k <= n) ks ->
+    Forall Pk ks -> Forall (fun k => keepk k = true -> mm (core k) < n) ks ->
     Forall (fun k => (keepk k = false /\ core k = [])
                      \/ (keepk k = true /\ exists l0 ls, core k = l0 :: ls /\ parse_node n (l0 :: ls) = Some (skk k))) ks.
   Proof.
     intros HP Hn. apply Forall_forall. intros k Hin.
     eapply Forall_forall in HP; eauto. eapply Forall_forall in Hn; eauto.
-    destruct k as [c|s]; simpl in *.
+    destruct k as [c|s]; simpl in HP |- *; simpl keepk in Hn; simpl core in Hn.
     - destruct (vis o (c_hide c)) eqn:Hv; [right|left; split; auto using Cx_hidden].
       split; auto. exists (sl_lit (ctx_line false false c)), (tl (Cx false false c)). split; [apply Cx_visible; auto|].
-      rewrite <- Cx_visible by auto. apply (HP false false Hv). exact Hn.
+      rewrite <- Cx_visible by auto. apply (HP false false Hv). apply Hn. reflexivity.
     - right. split; auto. eexists. eexists. split; [reflexivity|].
+      specialize (Hn eq_refl). rewrite mm_cons in Hn.
       destruct n as [|n]; [lia|]. destruct HP as [Hhd HR].
       rewrite <- (app_nil_r (B s)).
       eapply parse_node_spec; eauto; try constructor. apply HR. lia.
@@ -500,13 +522,16 @@ Section RoundTrip.
     - rewrite E. apply hd_ok_app.
       + eapply hd_ok_weaken; [|exact HB]. intros m Hm. unfold node_head. rewrite Hm. reflexivity.
       + eapply hd_ok_weaken; [|exact HK1]. intros m Hm. unfold node_head. rewrite Hm. apply orb_true_r.
-    - intros n Hn. rewrite (Cx_visible hp sl c Hv), E.
-      simpl in Hn. destruct n as [|n]; [lia|].
-      assert (Hn1 : match inn with Some s => ht_stack s | None => 0 end <= n) by lia.
-      assert (Hn2 : lmax (map ht_child ks) <= n) by lia.
+    - intros n Hn. rewrite (Cx_visible hp sl c Hv), E in Hn |- *.
+      rewrite mm_cons, mm_app in Hn. destruct n as [|n]; [lia|].
+      assert (Hn1 : mm (match inn with Some s => B s | None => [] end) <= S n) by lia.
+      assert (Hn2 : mm (KL false ks) <= n) by lia.
       destruct (blocks_items SC (is_m CC) (fun _ => CC) (fun l => conj eq_refl eq_refl)
                   core keepk skk (parse_node n) ks) as [bs [Hb Hp]].
-      { apply kid_items; auto. apply lmax_Forall. exact Hn2. }
+      { apply kid_items; auto. apply Forall_forall. intros k Hin Hkeep.
+        assert (Hne : core k <> []).
+        { destruct k as [c'|s']; simpl in *; [rewrite (Cx_visible false false c' Hkeep)|]; discriminate. }
+        pose proof (mm_kids ks false k Hin Hne). lia. }
       erewrite parse_node_spec; [ | exact HB | exact HK1 | | rewrite HK2; exact Hb | exact Hp ].
       + simpl. f_equal. f_equal. apply flat_map_ext. intros [c'|s]; reflexivity.
       + destruct inn as [s|]; [apply Hi; exact Hn1 | apply parse_body_nil].
@@ -524,13 +549,17 @@ Section RoundTrip.
   Qed.
 
   Theorem roundtrip_fuel s n :
-    ht_stack s <= n -> read_back_fuel n (fmt_stack_sl o s) = Some (skeleton_visible o s).
+    mm (fmt_stack_sl o s) <= S n -> read_back_fuel n (fmt_stack_sl o s) = Some (skeleton_visible o s).
   Proof.
     intros Hn. destruct roundtrip_all as [H _]. destruct (H s) as [_ HR].
-    unfold read_back_fuel, fmt_stack_sl, fmt_stack, sl_lit.
-    change (fmt_body sline (fun t => ([], t)) sl_add sl_is_child sl_is_blank (show_ctx o) (show_hidden o) s) with (B s).
-    rewrite (HR n Hn). reflexivity.
+    unfold read_back_fuel, fmt_stack_sl, fmt_stack, sl_lit in *.
+    change (fmt_body sline (fun t => ([], t)) sl_add sl_is_child sl_is_blank (show_ctx o) (show_hidden o) s) with (B s) in *.
+    rewrite mm_cons in Hn. rewrite (HR n) by lia. reflexivity.
   Qed.
+
+  (* read_back computes its own fuel from the text (1 + longest marker chain): always enough *)
+  Theorem roundtrip s : read_back (fmt_stack_sl o s) = Some (skeleton_visible o s).
+  Proof. unfold read_back. apply roundtrip_fuel. lia. Qed.
 End RoundTrip.
 
 (* ------------------------------------------------------------------ strings = rendered structured lines *)
@@ -814,10 +843,9 @@ Lemma flat_map_filter {X Y} (p : X -> bool) (g : X -> Y) xs :
 Proof. induction xs as [|x xs IH]; simpl; auto. destruct (p x); simpl; f_equal; auto. Qed.
 
 (* hidden frames/contexts are in the text read back iff show_hidden_frames *)
-Theorem hidden_iff o r fs lf er n :
-  ht_stack (Stk r fs lf er) <= n ->
+Theorem hidden_iff o r fs lf er :
   exists lf' er',
-    read_back_fuel n (fmt_stack_sl o (Stk r fs lf er))
+    read_back (fmt_stack_sl o (Stk r fs lf er))
     = Some (header_text r,
             SkStack (map (sk_of_frame o) (filter (fun f => negb (f_hide f) || show_hidden o) fs)) lf' er')
   /\ forall f, sk_of_frame o f
@@ -828,8 +856,8 @@ Theorem hidden_iff o r fs lf er n :
                (if last_exiting (f_ctxs f) then None
                 else if nonempty (frame_linetext f) then Some (frame_linetext f ++ nl) else None).
 Proof.
-  intros Hn. eexists. eexists. split.
-  - rewrite (roundtrip_fuel o _ n Hn). unfold skeleton_visible. simpl. f_equal. f_equal. f_equal.
+  eexists. eexists. split.
+  - rewrite (roundtrip o). unfold skeleton_visible. simpl. f_equal. f_equal. f_equal.
     apply (flat_map_filter (fun f => vis o (f_hide f)) (sk_of_frame o)).
   - intros f. destruct f as [fn cls md file ln src loc h hl cs]. simpl. f_equal.
     destruct (show_ctx o); auto.
